@@ -359,9 +359,8 @@ def run(replay=None):
                 if int(fa[key]) == 0 and int(fb[key]) != 0:
                     ck.violation(f"mesh:{key}:{name}", f"the mesh of the oracle tree fails an audit ({key}) that the mesh of the plain tree passes",
                                  {"program": p.text(), "plain": la[0], "oracle": lb[0]})
-            if int(fa["tris"]) > 0 and not (0.5 * int(fa["tris"]) <= int(fb["tris"]) <= 2 * int(fa["tris"])):
-                ck.violation(f"mesh:size:{name}", "the mesh of the oracle tree has a grossly different size from the plain tree's",
-                             {"program": p.text(), "plain": la[0], "oracle": lb[0]})
+            # (the SIZE of the two meshes is not compared: with cell collapsing a box comes out with 12 triangles or with 104
+            #  depending on last-bit differences in the QEF error test, and both are valid meshes)
             if float(fb["maxfield"]) > max(2.0 * float(fa["maxfield"]), 1.0):
                 ck.violation(f"mesh:offsurface:{name}", "a vertex of the oracle tree's mesh is much further from the surface than any of the plain tree's",
                              {"program": p.text(), "plain": la[0], "oracle": lb[0]})
